@@ -913,7 +913,9 @@ def siblings(ctx):
     ctx.floor(n, 8, "compressor_file / decompressor_file implementations")
     wf = ctx.repo.func(NPU, "_write_fileobject")
     cs = [c for c in calls_in(wf) if call_attr(c) == "compressor_file"]
-    ctx.check(len(cs) == 2 and all(dotted(c.args[0]) == "filename" and dotted(kwarg(c, "compresslevel")) == "compresslevel" for c in cs), cs[0] if cs else wf, "_write_fileobject forwards target and level to the wrapper")
+    gwf = cfg_of(wf)
+    ctx.check(len(cs) >= 1 and all(c.args and dotted(c.args[0]) == "filename" and dotted(kwarg(c, "compresslevel")) == "compresslevel" for c in cs)
+              and gwf.every_path_from([gwf.entry], gwf.nodes_of_all(cs), None, skip_exc=True), cs[0] if cs else wf, "_write_fileobject forwards target and level to the wrapper, on every path")
     sel = [c for c in cs if isinstance(c.func.value, ast.Subscript) and dotted(c.func.value.slice) == "compressmethod"]
     ctx.check(len(sel) == 1, sel[0] if sel else wf, "the wrapper is chosen by the requested method")
     cm = [a for a in nodes_of_type(wf, ast.Assign) if "compressmethod" in stores_to(a)]
